@@ -85,9 +85,14 @@ def gen(rng, idx, tier):
     interp = stratum == "default" and opts.get("allQuadratic", True) and rng.random() < 0.12
     if interp:
         opts["dropImpliedOnCurves"] = False
+    extra = {}
+    if not has_cubic and rng.random() < 0.25:
+        # a source that went through an in-place conversion once carries cu2qu's marker in its
+        # font or layer lib: a compile that is NOT in place has to treat it like any other source
+        extra[rng.choice(["lib", "layerLib"])] = {"com.github.googlei18n.cu2qu.curve_type": "quadratic"}
     return {"stratum": stratum, "interp": interp,
-            "ufo": {"glyphs": glyphs, "info": {"unitsPerEm": rng.choice([1000, 1000, 2048, 4096]),
-                                               "familyName": "T", "styleName": "R"}},
+            "ufo": dict({"glyphs": glyphs, "info": {"unitsPerEm": rng.choice([1000, 1000, 2048, 4096]),
+                                                    "familyName": "T", "styleName": "R"}}, **extra),
             "lib": rng.choice(["defcon", "ufoLib2"]), "opts": opts, "has_cubic": has_cubic}
 
 
@@ -167,6 +172,8 @@ def run(case):
     bound = max_err + math.sqrt(0.5) + 0.07
     reverse = opts["reverseDirection"]
     bump("reversed_runs" if reverse else "unreversed_runs")
+    if spec.get("lib") or spec.get("layerLib"):
+        bump("sources_carrying_cu2qu_curve_type_marker")
     n_dist = 0
     for name, g in glyphs.items():
         if name not in glyf.glyphs and name not in tt.getGlyphOrder():
